@@ -19,7 +19,7 @@ import random
 from .common import Nat, Raw, coq
 
 
-def gen_spec(rng, ne16=False, max_blocks=4, first=None, dim=2, padmodes=False, reuse=False, evenk=False):
+def gen_spec(rng, ne16=False, max_blocks=4, first=None, dim=2, padmodes=False, reuse=False, evenk=False, linfirst=False):
     """derive a network.  ne16=True restricts kernels to {1,3} (NE16 cost model).  `first` forces the
     first block kind ('dw', 'addin', ...) so that rare producer->consumer pairs are always reached."""
     cin = rng.randint(2 if ne16 else 1, 4)    # a 1->1 conv. is depthwise for the library; NE16 models only 3x3 depthwise
@@ -64,7 +64,7 @@ def gen_spec(rng, ne16=False, max_blocks=4, first=None, dim=2, padmodes=False, r
         if rng.random() < p_relu:
             push({'k': 'relu', 'src': st['cur'], 'fn': rng.random() < 0.5})
 
-    nb = rng.randint(1, max_blocks)
+    nb = 0 if linfirst else rng.randint(1, max_blocks)      # linfirst: no conv body, a Linear is the first searchable layer
     for b in range(nb):
         c = st['c']
         kind = first if (b == 0 and first) else rng.choice(['conv', 'conv', 'conv', 'dw', 'res', 'res2', 'dwres', 'pool', 'addin' if b == 0 else 'res'] + (['reuse2'] if reuse else []))
@@ -328,6 +328,41 @@ def input_shape(nodes):
     return (nd['c'],) + (nd['hw'],) * nd.get('dim', 2)
 
 
+def qlayer_candidates(nodes):
+    """layers INSIDE a sharing group that may get a layer-specific qinfo entry: depthwise convs behind another layer
+    (not features-defining) and conv addends of a residual add"""
+    out = []
+    for i, nd in enumerate(nodes):
+        if nd['k'] == 'dw' and nodes[nd['src']]['k'] != 'in':
+            out.append(i)
+        if nd['k'] == 'add':
+            out += [s for s in nd['src'] if nodes[s]['k'] in ('conv', 'dw')]
+    return sorted(set(out))
+
+
+def qlayer_wp(nodes, wp, i):
+    """weight search precisions written into the layer-specific qinfo entry of node i"""
+    nz = [v for v in wp if v != 0]
+    if nodes[i]['k'] == 'dw' and len(nz) >= 2:
+        return [v for v in wp if v != nz[-1]]
+    return list(wp)
+
+
+def make_qinfo(nodes, wp, ap, qlayers=(), input_quantizer=True):
+    """get_default_qinfo + layer-specific entries named after the fx nodes of `qlayers` (a copy of layer_default; for a
+    depthwise layer with one non-zero weight precision less, as a hand-edited entry would have) [+ no input quantizer]"""
+    import copy
+    from plinio.methods.mps import get_default_qinfo
+    q = get_default_qinfo(tuple(wp), tuple(ap))
+    for i in qlayers:
+        e = copy.deepcopy(q['layer_default'])
+        e['weight']['search_precision'] = tuple(qlayer_wp(nodes, wp, i))
+        q['layers_n%d' % i] = e
+    if not input_quantizer:
+        del q['input_default']
+    return q
+
+
 MPS_KINDS = ('in', 'conv', 'dw', 'lin', 'add')
 
 
@@ -350,7 +385,10 @@ def mps_layers(nodes, mps):
             out[i] = (str(users[0].target), seed.get_submodule(str(users[0].target)))
             ai += 1
         elif k == 'in':
-            out[i] = ('x_input_quantizer', seed.get_submodule('x_input_quantizer'))
+            try:
+                out[i] = ('x_input_quantizer', seed.get_submodule('x_input_quantizer'))
+            except AttributeError:
+                pass            # qinfo without 'input_default': the network input is not quantized
     assert ai == len(adds)
     return out
 
@@ -375,7 +413,7 @@ def alpha_targets(rng, mps, margin=0.05):
             col[k] = round(top + margin + rng.random() * rng.choice([0.01, 0.5, 2.0]), 3)
             vals.append(col)
         t = torch.tensor(vals, dtype=torch.float32).t()
-        out.append((name, p, (t[:, 0] if p.dim() == 1 else t).clone()))
+        out.append((name, p, (t[:, 0] if p.dim() == 1 else t).clone().contiguous()))
     return out
 
 
